@@ -282,6 +282,9 @@ impl Check for C19 {
     fn langs(&self) -> Vec<&'static str> {
         vec![]
     }
+    fn level(&self) -> &'static str {
+        "fault_enumeration"
+    }
     fn floors(&self) -> Vec<(&'static str, f64)> {
         vec![("window:overlap", 0.5), ("crash:inside_lock", 0.10), ("state:stale", 0.2), ("mode:threads", 0.15), ("scanner", 0.2)]
     }
